@@ -203,8 +203,10 @@ func cmdCheck(args []string) int {
 				"status": o.Res.Status, "solver": o.Res.Solver, "secs": round3(o.Res.Secs), "pos": posStr(o)})
 		}
 	}
+	printed := map[string]bool{}
 	for _, c := range canaries {
-		if c.o.Res.Status == "sat" {
+		if c.o.Res.Status == "sat" && !printed[c.f.What] {
+			printed[c.f.What] = true
 			fmt.Printf("KNOWN-FINDING: property=%s %s [%s]\n", id, c.f.What, c.f.Obligation)
 		}
 	}
